@@ -1,11 +1,16 @@
 From Coq Require Import extraction.Extraction extraction.ExtrOcamlBasic.
-From TU Require Import Base C16_Model C16_Machine C16_MachinePbs.
-Definition run := run_C16.
-Definition check := check_C16.
-(* the implementation's output (its first four components) equals the unbounded model's, the cluster oracle is
-   the model's segmentation, the machine-integer model (every usize operation explicit) yields the same output
+From TU Require Import Base C16_Model C16_Machine C16_MachinePbs Inference_Model.
+(* two kinds of input: the windows cases (first field 0..4) and the inference-loader cases (first field 10,
+   Inference_Model.v) *)
+Definition run (v : val) : val := if is_inference v then run_inference v else run_C16 v.
+Definition check (v out : val) : bool := if is_inference v then check_inference v out else check_C16 v out.
+(* windows cases: the implementation's output (its first four components) equals the unbounded model's, the cluster
+   oracle is the model's segmentation, the machine-integer model (every usize operation explicit) yields the same output
    in both profiles, and the fifth component (possible_byte_substrings, when the harness ran it) equals the
-   reference model and both profiles of its machine model *)
+   reference model and both profiles of its machine model.
+   inference cases: the batches are exactly the model's (items with ids, tags, boundaries, accessors, order inside the
+   batches); the end state is the model's up to the documented race between two recorded errors *)
 Definition agree (inp m i : val) : bool :=
-  val_eqb m (first4 i) && uax29_agree inp && machine_agree inp m && pbs_agree inp i.
+  if is_inference inp then agree_inference inp m i
+  else val_eqb m (first4 i) && uax29_agree inp && machine_agree inp m && pbs_agree inp i.
 Extraction "model.ml" run check agree.
